@@ -58,8 +58,23 @@ def call(name, p, J, dt, seed=0):
 
 
 def stable(name, p, J, out):
-    """numerical stability filter (ties / ambiguous rank): a 1e-11 relative perturbation of the
-    input must not move the float64 output by more than 1e-8 relative"""
+    """tie-free / unambiguous-rank quantifier.  Decided by EXACT oracles of the harness wherever one exists
+    (Krum: score gap; MGDA: Frank-Wolfe decisions; pinv / eigh based: singular-value gaps) and never by the
+    implementation under check for those -- a change that makes the implementation unstable would otherwise
+    excuse itself.  Continuous aggregators need no filter.  Only CAGrad (conic solver noise at
+    stationarity) keeps the perturbation probe: a 1e-11 relative perturbation of the input must not move
+    the float64 output by more than 1e-8 relative."""
+    if name == "Krum":
+        from props.c16 import krum_gap_ok
+        return krum_gap_ok(J, p["f"], p["k"])
+    if name == "MGDA":
+        return not A.mgda_has_tie(J, p["epsilon"], p["max_iters"], rel=1e-4)
+    if name in ("IMTLG", "ConFIG", "AlignedMTL"):
+        return R.well_conditioned(J, name, p)
+    if name != "CAGrad":
+        return True
+    if not R.well_conditioned(J, name, p):
+        return False
     rng = pyrandom.Random(12345)
     Jp = [[x * (1 + F(rng.randint(-1000, 1000), 10 ** 14)) for x in r] for r in J]
     o2 = call(name, p, Jp, "f64")
@@ -67,6 +82,14 @@ def stable(name, p, J, out):
         return out[0] == o2[0]
     sc = max(float(A.maxabs(J)) * len(J), 1e-300)
     return max(abs(a - b) for a, b in zip(out[1], o2[1])) <= 1e-8 * sc
+
+
+def tolc(name, dt):
+    """selections and fixed-weight averages are exact up to a few ulps of the largest entry: the generic
+    tolerance would hide the choice of a different row among rows that are close to each other"""
+    if name in ("Krum", "TrimmedMean", "Mean", "Sum", "Constant"):
+        return {"f64": 1e-12, "f32": 5e-6}[dt]
+    return TOL[dt]
 
 
 def close(a, b, tol, sc):
@@ -102,7 +125,7 @@ def transform_checks(chk, rng, c, found):
         Jp = [[r[perm[j]] for j in range(n)] for r in J]
         o = call(name, p, Jp, dt)
         chk.cov["evaluations"] += 1
-        if o[0] != "ok" or not close(o[1], [base[1][perm[j]] for j in range(n)], TOL[dt], sc):
+        if o[0] != "ok" or not close(o[1], [base[1][perm[j]] for j in range(n)], tolc(name, dt), sc):
             report(chk, found, c, dt, f"{name}: permuting the columns changed the result",
                    {"perm": perm, "A_J": base[1], "A_Jperm": o[:2]})
             continue
@@ -120,7 +143,7 @@ def transform_checks(chk, rng, c, found):
         exp = [0.0] * (n + z)
         for jj, j in enumerate(keep):
             exp[j] = base[1][jj]
-        if o[0] != "ok" or not close(o[1], exp, TOL[dt], sc):
+        if o[0] != "ok" or not close(o[1], exp, tolc(name, dt), sc):
             report(chk, found, c, dt, f"{name}: inserting {z} all-zero columns changed the update "
                    "of the other columns", {"zero_positions": pos, "A_J": base[1], "A_Jz": o[:2]})
             continue
@@ -133,7 +156,7 @@ def transform_checks(chk, rng, c, found):
         chk.cov["evaluations"] += 1
         Qf = np.array([[float(x) for x in r] for r in Q])
         exp = (np.array(base[1]) @ Qf).tolist()
-        if o[0] != "ok" or not close(o[1], exp, TOL[dt] * 3, sc):
+        if o[0] != "ok" or not close(o[1], exp, tolc(name, dt) * 3, sc):
             report(chk, found, c, dt, f"{name}: A(J Q) differs from A(J) Q for an orthogonal Q",
                    {"Q": A.jsonable(Q), "A_J_Q": exp, "A_JQ": o[:2]})
             continue
@@ -274,6 +297,20 @@ def run(chk):
             ["generic", "generic", "conflict", "rank_def", "bad_scale", "dup_rows", "stationary", "one_row"]),
             boundary=False)
         cases.append(c)
+    # many workers around a common mean (more rows than any unit test uses, norms 1e4 times the pairwise
+    # distances): Krum, TrimmedMean and Mean on 26-30 clustered rows
+    for name in ("Krum", "Krum", "TrimmedMean", "Mean"):
+        for _ in range(50):
+            m, n = rng.randint(26, 30), rng.randint(3, 5)
+            base = [rng.choice([-1, 1]) * 4096 * rng.randint(1, 3) for _ in range(n)]
+            J = [[F(base[j] + rng.randint(-6, 6)) for j in range(n)] for _ in range(m)]
+            p = {"f": rng.randint(1, 8), "k": rng.randint(1, 3)} if name == "Krum" else A.gen_params(rng, name, m)
+            if name == "Krum":
+                from props.c16 import krum_gap_ok
+                if not krum_gap_ok(J, p["f"], p["k"]):
+                    continue
+            cases.append({"name": name, "params": p, "J": J, "cat": "clustered_many_rows"})
+            break
     # correspondence on J and J.Q (inputs rounded to the dtype so model and code see the same J)
     corr = []
     for c in cases:
